@@ -418,9 +418,10 @@ def _construct_dsdl_definitions_from_namespaces(
     """
     source_file_paths: set[tuple[Path, Path]] = set()  # index of all file paths already found
     for root_namespace_path in root_namespace_paths:
-        for p in root_namespace_path.rglob(DSDL_FILE_GLOB):
+        # A directory may match the glob as well (e.g., "Type.1.0.dsdl/"); it is not a definition file.
+        for p in filter(Path.is_file, root_namespace_path.rglob(DSDL_FILE_GLOB)):
             source_file_paths.add((p, root_namespace_path))
-        for p in root_namespace_path.rglob(DSDL_FILE_GLOB_LEGACY):
+        for p in filter(Path.is_file, root_namespace_path.rglob(DSDL_FILE_GLOB_LEGACY)):
             source_file_paths.add((p, root_namespace_path))
             _logger.warning(
                 "File uses deprecated extension %r, please rename to use %r: %s",
